@@ -42,7 +42,9 @@ def aspect_good(aspect, val, p, full):
     """full(): the complete correctness predicate (built lazily)"""
     if aspect == 'round':
         return full()
-    nz = canonical(val, p if (aspect == 'bits' or p) else None)
+    # 'canon' (C01): canonical encoding only -- zero/special or odd mantissa with its exact bit count; whether the mantissa also fits
+    # the requested precision is the subject of 'bits' (C10) and 'round' (C02), not of C01
+    nz = canonical(val, p if (aspect == 'bits' and p) else None)
     return z3.Or(is_tuple(val, FZERO), nz)
 
 
